@@ -5,6 +5,7 @@ package main
 
 import (
 	"fmt"
+	"go/token"
 	"strings"
 
 	"golang.org/x/tools/go/ssa"
@@ -140,4 +141,305 @@ func checkRequiredFirst(res *Result, p *Pub, E *Effects, rule string) {
 		}
 	}
 	res.Count(rule+" effect sites guarded by required-property test", n, 20)
+}
+
+// storesTo lists the Store instructions of fn whose address is (a load of) the
+// field `field` of the receiver, i.e. *w.<field> = v.
+func storesThroughField(fn *ssa.Function, field string) []*ssa.Store {
+	var out []*ssa.Store
+	for _, b := range fn.Blocks {
+		for _, ins := range b.Instrs {
+			st, ok := ins.(*ssa.Store)
+			if !ok {
+				continue
+			}
+			if _, ok := loadOfField(st.Addr, field); ok {
+				out = append(out, st)
+			}
+		}
+	}
+	return out
+}
+
+func checkC16(res *Result) {
+	p := loadPub()
+	E := computeEffects(p)
+	res.Packages = []string{p.Pkg.PkgPath}
+	res.Explanation = "Decides structural necessary conditions on all SSA paths of the social (outbox) default callbacks: a missing/empty object (target) returns the sentinel before any effect and every effect lies where it is present; the undeliverable side channel is set — before anything can return — to true by block and to false by every other callback, and PostOutbox returns deliverable = !undeliverable on the matched path; Delete replaces the stored object, under its lock, by toTombstone(stored, id, clock.Now()), which copies id, former type, published and updated (each independently, when present) and sets deleted; Add/Remove touch only owned targets (Owns==true for the key locked/read/written), append / remove with the documented mutator, and Remove's in-place scan examines every element; Like prepends every object id to Liked(ActorForOutbox(outbox)) inside one hold; Update writes ToType(stored ⊕ supplied) back under the object's lock; the wrapped application callback of the right name runs last. Exact member sets after Update and JSON-null deletion are value-level and not decided (see DESIGN §5, O1)."
+	res.Rule("C16-R1", "required object/target first: sentinel before any effect; every effect where the property is present (shared rule)")
+	res.Rule("C16-R2", "Block is never delivered: block stores true through undeliverable before any return, every other callback stores false; PostOutbox yields deliverable = !undeliverable on the matched path and still calls addToOutbox")
+	res.Rule("C16-R3", "Tombstone: toTombstone sets id (parameter), formerType (obj.GetTypeName()), deleted (parameter now) and copies published and updated independently when present; social deleteFn passes (stored object, its id, clock.Now()) and Updates the result")
+	res.Rule("C16-R4", "Add/Remove/Like: ownership before modification, documented mutator, total scans; Like prepends each object id to the actor's liked collection")
+	res.Rule("C16-R5", "Update merge shape: every key of the supplied object's serialisation is written into the stored object's map; the value passed to Database.Update is ToType of that map")
+	res.Rule("C16-R6", "override table and callback-last for the social callbacks")
+	res.Rule("C16-R7", "error discipline over everything reachable from sideEffectActor.PostOutbox")
+
+	checkRequiredFirst(res, p, E, "C16-R1")
+
+	// R2
+	nStore := 0
+	for _, fn := range E.wrapped {
+		name := fname(fn)
+		if !strings.HasPrefix(name, "SocialWrappedCallbacks.") {
+			continue
+		}
+		want := name == "SocialWrappedCallbacks.block"
+		sts := storesThroughField(fn, "undeliverable")
+		nStore += len(sts)
+		allWant := len(sts) >= 1
+		for _, st := range sts {
+			v, isC := boolConst(st.Val)
+			if !isC || v != want {
+				allWant = false
+			}
+		}
+		res.check(allWant, "C16-R2", name, p.pos(fn), fmt.Sprintf("every store through undeliverable writes %v", want), fmt.Sprintf("%d stores, not all constant %v", len(sts), want))
+		domAll := false
+		for _, st := range sts {
+			ok := true
+			for _, r := range returnsIn(fn) {
+				if !dominates(st, r) {
+					ok = false
+				}
+			}
+			for _, ci := range E.byFn[fn] {
+				if ci.Trans&(eSIDE|eCLK) != 0 && !dominates(st, ci.Instr) {
+					ok = false
+				}
+			}
+			if ok {
+				domAll = true
+			}
+		}
+		res.check(domAll, "C16-R2", name, p.pos(fn), "the deliverability decision is recorded before anything else can happen or return", "no store through undeliverable dominates every return and effect: some path leaves the caller's default in place")
+	}
+	res.Count("stores through undeliverable", nStore, 9)
+	if fn := p.MustFunc(res, "C16-R2", "sideEffectActor.PostOutbox"); fn != nil {
+		ff := computeFacts(fn)
+		// the alloc whose address is stored into wrapped.undeliverable
+		var cell ssa.Value
+		for _, b := range fn.Blocks {
+			for _, ins := range b.Instrs {
+				if st, ok := ins.(*ssa.Store); ok {
+					if fa, ok := st.Addr.(*ssa.FieldAddr); ok && fieldName(fa.X.Type(), fa.Field) == "undeliverable" {
+						cell = st.Val
+					}
+				}
+			}
+		}
+		res.check(cell != nil, "C16-R2", fname(fn), p.pos(fn), "PostOutbox hands the callbacks a cell for the deliverability decision", "no store into wrapped.undeliverable")
+		// some return yields !*cell
+		okNot := false
+		var walk func(v ssa.Value, d int) bool
+		walk = func(v ssa.Value, d int) bool {
+			if d > 4 {
+				return false
+			}
+			switch x := v.(type) {
+			case *ssa.UnOp:
+				if x.Op == token.NOT {
+					if ld, ok := x.X.(*ssa.UnOp); ok && ld.Op == token.MUL && ld.X == cell {
+						return true
+					}
+				}
+			case *ssa.Phi:
+				for _, e := range x.Edges {
+					if walk(e, d+1) {
+						return true
+					}
+				}
+			}
+			return false
+		}
+		for _, r := range returnsIn(fn) {
+			if walk(ff.resolve(r, r.Results[0]), 0) {
+				okNot = true
+			}
+		}
+		res.check(okNot, "C16-R2", fname(fn), p.pos(fn), "deliverable is the negation of what the callback recorded", "no return yields !undeliverable")
+		checkOrder(res, p, E, "C16-R2", "sideEffectActor.PostOutbox", []pstep{{"sideEffectActor.addToOutbox", 1, 1, "store and list (also for Block)"}})
+		for _, c := range findCalls(E, fn, "sideEffectActor.addToOutbox") {
+			_, isRet := interface{}(c).(*ssa.Call)
+			_ = isRet
+			// not conditional on deliverability
+			s := ff.at[c]
+			cond := false
+			if s != nil && cell != nil {
+				for f := range s.facts {
+					for v, n := range ff.ids {
+						if fmt.Sprintf("v%d", n) == f.v {
+							if ld, ok := v.(*ssa.UnOp); ok && ld.X == cell {
+								cond = true
+							}
+						}
+					}
+				}
+			}
+			res.check(!cond, "C16-R2", fname(fn), p.pos(c), "the activity is stored and listed whatever the deliverability", "addToOutbox is conditional on undeliverable")
+		}
+	}
+
+	// R3
+	if fn := p.MustFunc(res, "C16-R3", "toTombstone"); fn != nil {
+		ff := computeFacts(fn)
+		g := flowOf(fn)
+		type copyRule struct {
+			setter string
+			src    func(ssa.Value) bool
+			what   string
+		}
+		getterResult := func(name string) ssa.Value {
+			for _, ci := range callsIn(fn) {
+				if c, ok := ci.(*ssa.Call); ok && c.Common().IsInvoke() && c.Common().Method.Name() == name {
+					return c
+				}
+			}
+			return nil
+		}
+		pub, upd := getterResult("GetActivityStreamsPublished"), getterResult("GetActivityStreamsUpdated")
+		for _, cr := range []copyRule{
+			{"SetJSONLDId", func(x ssa.Value) bool { return isParamNamed(x, "id") }, "id = the id passed in"},
+			{"SetActivityStreamsFormerType", func(x ssa.Value) bool { return isCallNamed(x, "GetTypeName") }, "formerType = the object's type name"},
+			{"SetActivityStreamsDeleted", func(x ssa.Value) bool { return isParamNamed(x, "now") }, "deleted = the time passed in"},
+			{"SetActivityStreamsPublished", func(x ssa.Value) bool { return x == pub && pub != nil }, "published = the object's published"},
+			{"SetActivityStreamsUpdated", func(x ssa.Value) bool { return x == upd && upd != nil }, "updated = the object's updated"},
+		} {
+			var site ssa.CallInstruction
+			for _, ci := range callsIn(fn) {
+				if ci.Common().IsInvoke() && ci.Common().Method.Name() == cr.setter {
+					site = ci
+				}
+			}
+			if site == nil {
+				res.bad("C16-R3", fname(fn), p.pos(fn), "Tombstone "+cr.what, cr.setter+" is not called")
+				continue
+			}
+			res.check(anyBackward(g, site.Common().Args[0], cr.src), "C16-R3", fname(fn), p.pos(site), "Tombstone "+cr.what, "the value installed does not derive from that source")
+			// independence of the optional copies
+			if cr.setter == "SetActivityStreamsPublished" && upd != nil {
+				res.check(!ff.has(site, upd, fNONNIL, "") && !ff.has(site, upd, fNIL, ""), "C16-R3", fname(fn), p.pos(site), "published is copied whether or not updated is present", "the copy is conditional on updated")
+			}
+			if cr.setter == "SetActivityStreamsUpdated" && pub != nil {
+				res.check(!ff.has(site, pub, fNONNIL, "") && !ff.has(site, pub, fNIL, ""), "C16-R3", fname(fn), p.pos(site), "updated is copied whether or not published is present", "the copy is conditional on published: an object with updated but no published loses its updated time")
+			}
+			if cr.setter == "SetJSONLDId" || cr.setter == "SetActivityStreamsFormerType" || cr.setter == "SetActivityStreamsDeleted" {
+				okAll := true
+				for _, r := range returnsIn(fn) {
+					if !dominates(site, r) {
+						okAll = false
+					}
+				}
+				res.check(okAll, "C16-R3", fname(fn), p.pos(site), cr.setter+" happens on every path", "conditional")
+			}
+		}
+		// formerType value
+		for _, ci := range callsIn(fn) {
+			if ci.Common().IsInvoke() && ci.Common().Method.Name() == "AppendXMLSchemaString" {
+				res.check(anyBackward(g, ci.Common().Args[0], func(x ssa.Value) bool {
+					c, ok := x.(*ssa.Call)
+					return ok && c.Common().IsInvoke() && c.Common().Method.Name() == "GetTypeName" && isParamNamed(c.Common().Value, "obj")
+				}), "C16-R3", fname(fn), p.pos(ci), "formerType holds obj.GetTypeName()", "different value")
+			}
+		}
+	}
+	if fn := p.MustFunc(res, "C16-R3", "SocialWrappedCallbacks.deleteFn$1"); fn != nil {
+		g := flowOf(fn)
+		ts := findCalls(E, fn, "toTombstone")
+		res.check(len(ts) == 1, "C16-R3", fname(fn), p.pos(fn), "one Tombstone per object", fmt.Sprintf("%d calls", len(ts)))
+		for _, c := range ts {
+			a := c.Common().Args
+			okObj := anyBackward(g, a[0], func(x ssa.Value) bool { return isCallNamed(x, "Database.Get") })
+			okID := isParamNamed(a[1], "loopId")
+			okNow := isCallNamed(a[2], "Clock.Now")
+			res.check(okObj && okID && okNow, "C16-R3", fname(fn), p.pos(c), "toTombstone(stored object, its id, clock.Now())", fmt.Sprintf("object from Database.Get: %v; id is the object's id: %v; time from the clock: %v", okObj, okID, okNow))
+			for _, u := range findCalls(E, fn, "Database.Update") {
+				res.check(unwrap(u.Common().Args[1]) == ssa.Value(c.(*ssa.Call)), "C16-R3", fname(fn), p.pos(u), "the Tombstone replaces the stored object", "Update's argument is not the Tombstone")
+			}
+			for _, gt := range findCalls(E, fn, "Database.Get") {
+				res.check(gt.Common().Args[1] == a[1], "C16-R3", fname(fn), p.pos(gt), "the object read is the one named by the id", "different key")
+			}
+		}
+	}
+
+	// R4
+	checkOwnership(res, p, E, "C16-R4", []string{"add$1", "remove$1"})
+	checkCollectionMutators(res, p, "C16-R4", map[string]bool{"add$1": true, "remove$1": true, "SocialWrappedCallbacks.like": true})
+	checkInPlaceFilterLoop(res, p, "C16-R4", "remove$1", 2)
+	if fn := p.Func("remove$1"); fn != nil {
+		ff := computeFacts(fn)
+		for _, ci := range callsIn(fn) {
+			if ci.Common().IsInvoke() && ci.Common().Method.Name() == "Remove" {
+				tot, why := totalLoop(loopBlocks(ci.Block()), failureReturnPred(ff))
+				res.check(tot, "C16-R4", "remove$1", p.pos(ci), "the scan examines every element of the collection (left early only by failing)", why)
+			}
+		}
+	}
+	for _, name := range []string{"add", "remove"} {
+		if fn := p.Func(name); fn != nil {
+			ff := computeFacts(fn)
+			for _, c := range findCalls(E, fn, name+"$1") {
+				tot, why := totalLoop(loopBlocks(c.Block()), failureReturnPred(ff))
+				res.check(inLoop(c) && tot, "C16-R4", name, p.pos(c), "every target is processed (loop left early only by failing)", why)
+			}
+		}
+	}
+	if fn := p.MustFunc(res, "C16-R4", "SocialWrappedCallbacks.like"); fn != nil {
+		ff := computeFacts(fn)
+		g := flowOf(fn)
+		for _, c := range findCalls(E, fn, "Database.Liked") {
+			res.check(anyBackward(g, c.Common().Args[1], func(x ssa.Value) bool { return isCallNamed(x, "Database.ActorForOutbox") }), "C16-R4", fname(fn), p.pos(c), "the liked collection is that of the outbox's actor", "key does not derive from ActorForOutbox")
+		}
+		for _, ci := range callsIn(fn) {
+			if ci.Common().IsInvoke() && ci.Common().Method.Name() == "PrependIRI" {
+				res.check(anyBackward(g, ci.Common().Args[0], func(x ssa.Value) bool { return isCallNamed(x, "GetActivityStreamsObject") }), "C16-R4", fname(fn), p.pos(ci), "what is prepended are the ids of the Like's objects", "different source")
+				tot, why := totalLoop(loopBlocks(ci.Block()), failureReturnPred(ff))
+				res.check(tot, "C16-R4", fname(fn), p.pos(ci), "every object id is added", why)
+			}
+		}
+		for _, u := range findCalls(E, fn, "Database.Update") {
+			res.check(anyBackward(g, u.Common().Args[1], func(x ssa.Value) bool { return isCallNamed(x, "Database.Liked") }), "C16-R4", fname(fn), p.pos(u), "the collection written is the one read", "different value")
+		}
+	}
+	checkFreshInstalled(res, p, "C16-R4", []string{"add$1", "SocialWrappedCallbacks.like"}, 3)
+
+	// R5
+	if fn := p.MustFunc(res, "C16-R5", "SocialWrappedCallbacks.update$1"); fn != nil {
+		g := flowOf(fn)
+		var merged bool
+		for _, b := range fn.Blocks {
+			for _, ins := range b.Instrs {
+				mu, ok := ins.(*ssa.MapUpdate)
+				if !ok {
+					continue
+				}
+				mapFromStored := anyBackward(g, mu.Map, func(x ssa.Value) bool { return isCallNamed(x, "Database.Get") })
+				valFromSupplied := anyBackward(g, mu.Value, func(x ssa.Value) bool { return isCallNamed(x, "GetType") })
+				if mapFromStored && valFromSupplied {
+					merged = true
+					tot, why := totalLoop(loopBlocks(mu.Block()), func(*ssa.Return) bool { return false })
+					res.check(tot, "C16-R5", fname(fn), p.pos(mu), "every supplied member is copied (the copy loop cannot be left early)", why)
+				}
+			}
+		}
+		res.check(merged, "C16-R5", fname(fn), p.pos(fn), "the supplied object's members are written into the stored object's map", "no map update with that data flow")
+		for _, u := range findCalls(E, fn, "Database.Update") {
+			v, _ := unwrapExtract(u.Common().Args[1])
+			okT := isCallNamed(v, "streams.ToType") && anyBackward(g, v, func(x ssa.Value) bool { return isCallNamed(x, "Database.Get") })
+			res.check(okT, "C16-R5", fname(fn), p.pos(u), "what is written back is ToType of the merged map", "argument is "+valueLabel(u.Common().Args[1]))
+		}
+		for _, gt := range findCalls(E, fn, "Database.Get") {
+			res.check(isParamNamed(gt.Common().Args[1], "loopId"), "C16-R5", fname(fn), p.pos(gt), "the stored object read is the one the activity names", "different key")
+		}
+	}
+
+	// R6
+	checkOverrideTable(res, p, "C16-R6", "SocialWrappedCallbacks", 9)
+	checkCallbackLast(res, p, E, "C16-R6", "SocialWrappedCallbacks")
+	// R7
+	fns := reachFrom(p, E, "sideEffectActor.PostOutbox")
+	addErrFlowObligations(res, p, E, "C16-R7", fns, true)
+	res.Functions = len(fns)
+	res.Assumptions = append(res.Assumptions, "value flow is an over-approximation", "CFG paths over-approximate feasible paths")
+	res.Undecided = []string{"that exactly the supplied members change (value level)", "removal of members supplied as JSON null: by reading, the loop iterates the activity's raw top-level map rather than the object's — a value-level observation no structural rule here establishes (DESIGN §5 O1)", "answers of Database.Owns"}
+	res.Trusted = []string{"go/types, go/ssa, go/ast (x/tools v0.29.0)", "e1_effects.go, e2_facts.go, e4_flow.go, e9_errflow.go"}
 }
